@@ -39,6 +39,7 @@ def run_history(r, module, letter, spec, cls, n_ops, stream, ctx, lines, pend):
     fresh_ref = None
     comp_fields = [f for f in spec["fields"] if f["shape"] == "component" and text_subs(f)]
     rep_fields = [f for f in spec["fields"] if f["shape"] == "repeated" and text_subs(f)]
+    json_fields = [f for f in spec["fields"] if f["shape"] == "scalar" and f["scalar"]["kind"] == "jsonList"]
     absent_mutation = False
     oracle_msg = None
     NOW = "20240101000000"
@@ -54,7 +55,7 @@ def run_history(r, module, letter, spec, cls, n_ops, stream, ctx, lines, pend):
     planted_ts = set()
     shared_input = [None]
     for step in range(n_ops):
-        kind = r.choice(["C", "C", "S", "RS", "AP", "AC", "N", "FRESH"]) if recs else "C"
+        kind = r.choice(["C", "C", "S", "RS", "AP", "AC", "N", "FRESH", "FAILC", "JR"] + (["JR", "JR"] if json_fields else [])) if recs else "C"
         try:
             before = [copy.deepcopy(x.to_dict()) for x in recs]
         except Exception as e:  # noqa
@@ -88,6 +89,37 @@ def run_history(r, module, letter, spec, cls, n_ops, stream, ctx, lines, pend):
                         fresh_ref = d
                     elif d != fresh_ref and oracle_msg is None:
                         oracle_msg = ("fresh", "a record built from fixed input renders differently after earlier operations")
+            elif kind == "FAILC":
+                # a construction that is refused half-way (an early field violates its constraint, later fields carry
+                # values): it creates nothing and leaves nothing behind for later constructions
+                raw = schemaio.gen_record(r, spec, fill=0.95)[0]
+                bad_list = codec.decode_record(raw)
+                idx = next((i for i, f in enumerate(spec["fields"]) if i > 0 and f["shape"] == "scalar"
+                            and f["scalar"]["kind"] in ("integer", "date", "datetime", "time", "set", "constant")), None)
+                if idx is None:
+                    continue
+                bad_list = bad_list + [None] * (idx + 1 - len(bad_list))
+                bad_list[idx] = "~invalid~"
+                try:
+                    cls(*bad_list)
+                except Exception:
+                    pass
+                continue
+            elif kind == "JR" and json_fields:
+                # the list read from a JSON list field is the caller's own copy: changing it changes no record
+                f = r.choice(json_fields)
+                target = r.randrange(len(recs))
+                got_list = getattr(recs[target], f["name"])
+                if isinstance(got_list, list):
+                    got_list.append("MUTATED")
+                    got_list.sort(key=repr)
+                for x in recs:
+                    a_ = x.to_dict()
+                    rd = getattr(x, f["name"])
+                    if a_.get(f["name"]) is not None and rd != json.loads(a_[f["name"]]) and oracle_msg is None:
+                        oracle_msg = ("read-differs", "after a list read from one record was changed in place, reading %s of a "
+                                      "record gives %r while it renders %r" % (f["name"], rd, a_[f["name"]]))
+                continue
             elif kind == "S" and comp_fields:
                 f = r.choice(comp_fields)
                 target = r.randrange(len(recs))
@@ -150,6 +182,15 @@ def run_history(r, module, letter, spec, cls, n_ops, stream, ctx, lines, pend):
                               % (type(e).__name__, str(e)[:80]))
             break
         renders.append(after)
+        # what an attribute read gives agrees with what is rendered (JSON list fields hand out parsed lists)
+        for x, a_ in zip(recs, after):
+            for f in json_fields:
+                try:
+                    rd = getattr(x, f["name"])
+                except Exception:
+                    rd = "unreadable"
+                if a_.get(f["name"]) is not None and rd != json.loads(a_[f["name"]]) and oracle_msg is None:
+                    oracle_msg = ("read-differs", "reading %s gives %r, the record renders %r" % (f["name"], rd, a_[f["name"]]))
         # oracle: only the targeted record may have changed
         for i, (b, a) in enumerate(zip(before, after)):
             if i != target and a != b and oracle_msg is None:
@@ -172,7 +213,7 @@ def run(ctx):
         cls = schemaio.real_class(module, letter)
         if cls is None:
             continue
-        rich = any(f["shape"] != "scalar" for f in spec["fields"])
+        rich = any(f["shape"] != "scalar" or f["scalar"]["kind"] == "jsonList" for f in spec["fields"])
         for _ in range(per if rich else 1):
             run_history(r, module, letter, spec, cls, r.choice([4, 8, 14]), s, ctx, lines, pend)
     model = common.drive(lines) if ctx.driver_ok else [None] * len(lines)
